@@ -340,6 +340,10 @@ def to_U(v):
         return u_of_str(z3.StringVal(v))
     if isinstance(v, int):
         return u_of_int(z3.IntVal(v))
+    if isinstance(v, bytes):
+        return z3.Const(f"bytes:{v.hex()}", U)
+    if isinstance(v, float):
+        return z3.Const(f"float:{v!r}", U)
     if isinstance(v, tuple):
         comps = [to_U(x) for x in v]
         if not comps:
@@ -1649,9 +1653,11 @@ class Engine:
             self.used_trusted.add("pathlib `/` is a pure function of its operands")
             return [(st, f(to_U(a), to_U(b)), None)]
         la, lb = lift(a), lift(b)
-        if is_z3(la) and is_z3(lb):
+        try:
             f = z3.Function(f"binop_{type(op).__name__}", U, U, U)
             return [(st, f(to_U(la), to_U(lb)), None)]
+        except Unsupported:
+            pass
         raise Unsupported(f"binary {type(op).__name__} on {type(a).__name__},{type(b).__name__}")
 
     def e_Attribute(self, node, st):
